@@ -260,6 +260,27 @@ func RunHelpCase(d *Def, n int) (res Res) {
 			b.Cleanup()
 		}
 	}
+	// (f) the same after the program looked at the help of every command while it was only half declared, and again
+	// when everything was declared
+	{
+		var w bytes.Buffer
+		getoptions.Writer = &w
+		look := func(b *Built) {
+			for _, g := range b.GOpts {
+				if g != nil {
+					g.Help()
+				}
+			}
+		}
+		b := BuildWith(cfg, look)
+		look(b)
+		if g := b.GOpts[n-1]; g != nil {
+			texts = append(texts, g.Help())
+		}
+		b.Root.Parse(append([]string{}, path...))
+		texts = append(texts, b.Root.Help())
+		b.Cleanup()
+	}
 	// (d) Help() of the level's own GetOpt object without any Parse; (e) the text put together from its sections
 	{
 		var w bytes.Buffer
